@@ -214,7 +214,8 @@ def build(ctx):
     c09obs = {o.id: o for o in c09.build(ctx)}
     from . import c04
     c04obs = {o.id: o for o in c04.build(ctx)}
-    for src, rp_ in ((c04obs["single.step.uses_contracts"], rt_replay()), (c04obs["ideal.step.uses_contracts"], rt_replay()), (c10obs["recovery_factor.post"], rt_replay()), (c01obs["single.inv.preserve.lower"], rt_replay(("rf.ceiling",))), (c01obs["single.inv.preserve.upper"], rt_replay(("rf.ceiling",))),
+    for src, rp_ in ((c04obs["single.step.uses_contracts"], rt_replay()), (c04obs["ideal.step.uses_contracts"], rt_replay()),
+                     (c04obs["single.step.mesh_ratio"], rt_replay(("rf.modes_agree",))), (c04obs["single.step.rows"], rt_replay(("rf.modes_agree",))), (c10obs["recovery_factor.post"], rt_replay()), (c01obs["single.inv.preserve.lower"], rt_replay(("rf.ceiling",))), (c01obs["single.inv.preserve.upper"], rt_replay(("rf.ceiling",))),
                      (c01obs["single.step.rhs_consistent"], rt_replay(("rf.ceiling", "rf.modes_agree"))), (c09obs["init.frame"], rt_replay())):
         def both(w, a=src.replay, b=rp_):
             r1 = a(w) if a else None
